@@ -35,34 +35,53 @@ pub fn check_roundtrip(text: &[char], labels: &[u8], char_tags: &[Vec<Option<Str
         Ok(Err(p)) => return Some(("write-panic".into(), format!("write_partial_annotation_text panicked: {p}"))),
         Ok(Ok(w)) => w,
     };
-    let parsed = guard(|| {
-        Sentence::from_partial_annotation(&w).map(|p| {
-            let tags: Vec<Option<String>> = p.tags().iter().map(|x| x.as_ref().map(|x| x.to_string())).collect();
-            (p.as_raw_text().to_string(), p.boundaries().iter().map(|&b| b as u8).collect::<Vec<u8>>(), tags, p.n_tags())
-        })
-    });
-    match parsed {
-        Err(p) => Some(("parse-panic".into(), format!("from_partial_annotation({w:?}) panicked: {p}"))),
-        Ok(Err(e)) => Some(("parse-err".into(), format!("from_partial_annotation rejected written text {w:?}: {e}"))),
-        Ok(Ok((raw, bs, ptags, pn))) => {
-            if raw != t {
-                return Some(("text".into(), format!("written {w:?} parses to text {raw:?}, expected {t:?}")));
-            }
-            if bs != labels {
-                return Some(("labels".into(), format!("written {w:?} parses to labels {bs:?}, expected {labels:?}")));
-            }
-            if ptags.len() != pn * n {
-                return Some(("shape".into(), format!("parsed tags.len()={} != n_tags {pn} x chars {n}", ptags.len())));
-            }
-            for i in 0..n {
-                let got = &ptags[i * pn..(i + 1) * pn];
-                if trim(got) != trim(&char_tags[i]) {
-                    return Some(("tags".into(), format!("char {i}: written {w:?} parses to tags {:?}, expected {:?}", trim(got), trim(&char_tags[i]))));
+    // route 0: the constructor; route 1: update_partial_annotation on a longer, more heavily tagged
+    // sentence; route 2: update on a sentence of exactly the same shape (same number of characters and
+    // tags per character) with every tag slot filled - the parser writes into reused buffers there
+    for route in 0..3u8 {
+        let via = ["", "-via-update", "-via-same-shape-update"][route as usize];
+        let parsed = guard(|| {
+            let r = match route {
+                0 => Sentence::from_partial_annotation(&w),
+                1 => {
+                    let mut prior = Sentence::from_partial_annotation("q/T1/T2/T3/T4/T5-r/U1/U2/U3/U4/U5|s/V1/V2/V3/V4/V5 t/W1/W2/W3/W4/W5-u/X1/X2/X3/X4/X5|v/Y1/Y2/Y3/Y4/Y5").expect("prior line");
+                    prior.update_partial_annotation(&w).map(|_| prior)
+                }
+                _ => {
+                    let mut prior = Sentence::from_raw("z".repeat(n)).expect("prior");
+                    prior.reset_tags(n_tags);
+                    prior.tags_mut().iter_mut().for_each(|t| *t = Some("Z".into()));
+                    prior.update_partial_annotation(&w).map(|_| prior)
+                }
+            };
+            r.map(|p| {
+                let tags: Vec<Option<String>> = p.tags().iter().map(|x| x.as_ref().map(|x| x.to_string())).collect();
+                (p.as_raw_text().to_string(), p.boundaries().iter().map(|&b| b as u8).collect::<Vec<u8>>(), tags, p.n_tags())
+            })
+        });
+        match parsed {
+            Err(p) => return Some((format!("parse-panic{via}"), format!("parsing {w:?} panicked: {p}"))),
+            Ok(Err(e)) => return Some((format!("parse-err{via}"), format!("the parser rejected written text {w:?}: {e}"))),
+            Ok(Ok((raw, bs, ptags, pn))) => {
+                if raw != t {
+                    return Some((format!("text{via}"), format!("written {w:?} parses to text {raw:?}, expected {t:?}")));
+                }
+                if bs != labels {
+                    return Some((format!("labels{via}"), format!("written {w:?} parses to labels {bs:?}, expected {labels:?}")));
+                }
+                if ptags.len() != pn * n {
+                    return Some((format!("shape{via}"), format!("parsed tags.len()={} != n_tags {pn} x chars {n}", ptags.len())));
+                }
+                for i in 0..n {
+                    let got = &ptags[i * pn..(i + 1) * pn];
+                    if trim(got) != trim(&char_tags[i]) {
+                        return Some((format!("tags{via}"), format!("char {i}: written {w:?} parses to tags {:?}, expected {:?}", trim(got), trim(&char_tags[i]))));
+                    }
                 }
             }
-            None
         }
     }
+    None
 }
 
 fn lists(pool: &[Option<&str>], maxlen: usize) -> Vec<Vec<Option<String>>> {
